@@ -154,9 +154,9 @@ func NewSys(plan *Plan) *Sys {
 	s := &Sys{K: k, Eff: &Effects{}, Plan: plan, Devs: map[string]*Device{}, connUp: map[string]bool{}}
 	s.RT = NewRuntime(k, s.Eff)
 	if la := plan.Knobs.LateAck; len(la) > 0 {
-		s.RT.LateAck = func(prim, op string) bool {
+		s.RT.LateAck = func(prim, op, key string) bool {
 			for _, pre := range la {
-				if strings.HasPrefix(prim+"/"+op, pre) {
+				if strings.HasPrefix(prim+"/"+op+"/"+key, pre) {
 					return true
 				}
 			}
